@@ -13,8 +13,16 @@ static int cmp_mod(const void *a, const void *b) {
     if (x % 100 != y % 100) return (x % 100 > y % 100) ? 7 : -7;
     return (x > y) ? 3 : (x < y) ? -3 : 0;
 }
+/* numeric order reported with LARGE magnitudes: the 64-bit difference clamped to +-(2^31-1); a library that
+ * narrowed the comparator result (char, short) or compared it with == 1 / == -1 would misbehave */
+static int cmp_big(const void *a, const void *b) {
+    cmp_calls++; uintptr_t x = (uintptr_t)a, y = (uintptr_t)b;
+    if (x > y) return (x - y > 2147483647u) ? 2147483647 : (int)(x - y);
+    if (x < y) return (y - x > 2147483647u) ? -2147483647 : -(int)(y - x);
+    return 0;
+}
 typedef int (*cmp_fn)(const void *, const void *);
-static cmp_fn pick_cmp(int which) { return which == 1 ? cmp_rev : which == 2 ? cmp_mod : cmp_num; }
+static cmp_fn pick_cmp(int which) { return which == 1 ? cmp_rev : which == 2 ? cmp_mod : which == 3 ? cmp_big : cmp_num; }
 static void cb_key(const void *k) { cb_record((void *)k); }
 
 /* C17: at most 2*floor(log2(n+1))+2 comparator calls on a table holding n keys */
